@@ -11,6 +11,8 @@
 (*              answer, P_RESP peers that answer                           *)
 (*  obs.dial    1 if a connection attempt to an unreachable permanent peer *)
 (*              was in progress when the client started, else 0            *)
+(*  obs.never   1 if no peer has ever completed a handshake since Start    *)
+(*              (only with pool = P_EMPTY), else 0                         *)
 (*  obs.stop    S_NOT Stop not called, S_RUN called and not returned,      *)
 (*              S_DONE returned, S_HUNG not returned within the bound      *)
 (*  obs.calls   one record per activity in the order in which they were    *)
